@@ -22,6 +22,7 @@ import (
 	"go/constant"
 	"go/token"
 	"go/types"
+	"regexp"
 	"sort"
 	"strings"
 
@@ -49,18 +50,18 @@ type Origin struct {
 }
 
 type Effects struct {
-	Fn      *ssa.Function
-	Bind    string
-	Reads   map[string]Loc
-	Writes  map[string]Loc
-	Calls   map[string]token.Pos // library callees (transitive), by fname
-	Ext     map[string]token.Pos // external callees (transitive), by full name
-	Allocs  map[string]token.Pos // struct types allocated (transitive)
-	Panics  map[string]token.Pos // explicit panic sites (transitive), by function
-	Dyn     map[string]token.Pos // unresolved dynamic calls
-	Unknown map[string]token.Pos // external callees the engine has no model for
-	RangeMap map[string]token.Pos // range-over-map sites
-	Ret     *Origin
+	Fn        *ssa.Function
+	Bind      string
+	Reads     map[string]Loc
+	Writes    map[string]Loc
+	Calls     map[string]token.Pos // library callees (transitive), by fname
+	Ext       map[string]token.Pos // external callees (transitive), by full name
+	Allocs    map[string]token.Pos // struct types allocated (transitive)
+	Panics    map[string]token.Pos // explicit panic sites (transitive), by function
+	Dyn       map[string]token.Pos // unresolved dynamic calls
+	Unknown   map[string]token.Pos // external callees the engine has no model for
+	RangeMap  map[string]token.Pos // range-over-map sites
+	Ret       *Origin
 	Recursion bool
 }
 
@@ -117,14 +118,14 @@ func (e *effEngine) With(fn *ssa.Function, bind map[int]constant.Value) *Effects
 }
 
 type effAnalysis struct {
-	e      *effEngine
-	fn     *ssa.Function
-	bind   map[int]constant.Value
-	res    *Effects
-	orig   map[ssa.Value]Origin
-	consts map[ssa.Value]constant.Value
-	reach  map[*ssa.BasicBlock]bool
-	rets   []Origin
+	e        *effEngine
+	fn       *ssa.Function
+	bind     map[int]constant.Value
+	res      *Effects
+	orig     map[ssa.Value]Origin
+	consts   map[ssa.Value]constant.Value
+	reach    map[*ssa.BasicBlock]bool
+	rets     []Origin
 	retMixed bool
 }
 
@@ -407,6 +408,14 @@ func (a *effAnalysis) origin1(v ssa.Value) Origin {
 		return Origin{Root: "g:" + gname(x)}
 	case *ssa.UnOp:
 		if x.Op == token.MUL {
+			// store forwarding: a field of an object this activation allocated holds what was stored into it
+			if fa, ok := x.X.(*ssa.FieldAddr); ok {
+				if al, ok := fa.X.(*ssa.Alloc); ok {
+					if o, ok := a.fieldForward(al, fa.Field); ok {
+						return o
+					}
+				}
+			}
 			l := a.addrLoc(x.X)
 			if l.Root == "a" || l.Root == "o" {
 				// a value loaded from a local cell or an unknown object
@@ -461,6 +470,36 @@ func (a *effAnalysis) origin1(v ssa.Value) Origin {
 		return a.callOrigin(x)
 	}
 	return Origin{Root: "o"}
+}
+
+var firstField = regexp.MustCompile(`^\.([A-Za-z_][A-Za-z0-9_]*)(.*)$`)
+
+// fieldForward: the common origin of everything this function stores into field idx of its own
+// allocation al (ok=false when nothing is stored or the stored values have different origins).
+func (a *effAnalysis) fieldForward(al *ssa.Alloc, idx int) (Origin, bool) {
+	var first *Origin
+	for _, b := range a.fn.Blocks {
+		for _, ins := range b.Instrs {
+			st, ok := ins.(*ssa.Store)
+			if !ok {
+				continue
+			}
+			fa, ok := st.Addr.(*ssa.FieldAddr)
+			if !ok || fa.X != ssa.Value(al) || fa.Field != idx {
+				continue
+			}
+			o := a.origin(st.Val)
+			if first == nil {
+				first = &o
+			} else if *first != o {
+				return Origin{}, false
+			}
+		}
+	}
+	if first == nil || first.Root == "a" || first.Root == "o" {
+		return Origin{}, false
+	}
+	return *first, true
 }
 
 // cellOrigin: origin of the value held in an address-taken local: the common
@@ -653,6 +692,20 @@ func (a *effAnalysis) mapLoc(l Loc, args []ssa.Value) Loc {
 			nl := Loc{Root: o.Root, Flat: l.Flat, Pos: l.Pos, Via: l.Via}
 			if o.Root != "a" && o.Root != "o" {
 				nl.Path = o.Path + l.Path
+			} else if al, ok := args[idx].(*ssa.Alloc); ok {
+				// the callee goes through a field of an object under construction: forward to what was stored there
+				if m := firstField.FindStringSubmatch(l.Path); m != nil && m[2] != "" {
+					if st, ok := al.Type().Underlying().(*types.Pointer).Elem().Underlying().(*types.Struct); ok {
+						for i := 0; i < st.NumFields(); i++ {
+							if st.Field(i).Name() == m[1] {
+								if fo, ok := a.fieldForward(al, i); ok && fo.Root != "a" && fo.Root != "o" {
+									nl.Root = fo.Root
+									nl.Path = fo.Path + m[2]
+								}
+							}
+						}
+					}
+				}
 			}
 			return nl
 		}
